@@ -177,6 +177,14 @@ func runC11(c *Ctx) {
 		c11Run(c, cs, nil)
 		return
 	}
+	files, _ := filepathGlob("/verif/harness/corpus/C11/*.json")
+	for _, f := range files {
+		var wrap struct{ Case c11Case `json:"case"` }
+		b, err := readFile(f)
+		if err == nil && json.Unmarshal(b, &wrap) == nil && len(wrap.Case.Reqs) > 0 {
+			c11Run(c, wrap.Case, nil)
+		}
+	}
 	for i := 0; i < cases; i++ {
 		r := c.Rng("case", i)
 		cs := c11Case{Method: proto.Pick(r, []string{"GET", "POST"}), Endpoint: c11GenEndpoint(r)}
